@@ -32,7 +32,8 @@ def strip_docstring(body):
 
 
 class FuncInfo:
-    __slots__ = ('module', 'qualname', 'node', 'cls', 'parent_func')
+    __slots__ = ('module', 'qualname', 'node', 'cls', 'parent_func',
+                 'is_method')
 
     def __init__(self, module, qualname, node, cls, parent_func):
         self.module = module
@@ -40,6 +41,7 @@ class FuncInfo:
         self.node = node
         self.cls = cls              # enclosing ClassInfo or None
         self.parent_func = parent_func  # enclosing FuncInfo or None
+        self.is_method = False
 
     @property
     def key(self):
@@ -125,11 +127,11 @@ class Module:
                 self.toplevel.add(node.name)
         self._walk_defs(self.tree.body, '', None, None)
 
-    def _walk_defs(self, body, prefix, cls, pfunc):
+    def _walk_defs(self, body, prefix, cls, pfunc, direct_cls=None):
         for node in body:
-            self._walk_node(node, prefix, cls, pfunc)
+            self._walk_node(node, prefix, cls, pfunc, direct_cls)
 
-    def _walk_node(self, node, prefix, cls, pfunc):
+    def _walk_node(self, node, prefix, cls, pfunc, direct_cls):
         if isinstance(node, (ast.FunctionDef, ast.AsyncFunctionDef)):
             q = prefix + node.name
             fi = FuncInfo(self, q, node, cls, pfunc)
@@ -141,22 +143,21 @@ class Module:
                 k = '%s#%d' % (q, n)
                 n += 1
             fi.qualname = k
+            fi.is_method = direct_cls is not None
             self.functions[k] = fi
-            if cls is not None and pfunc is None:
-                cls.methods[node.name] = fi
-            self._walk_defs(node.body, k + '.', cls, fi)
+            if direct_cls is not None:
+                direct_cls.methods.setdefault(node.name, fi)
+            self._walk_defs(node.body, k + '.', cls, fi, None)
         elif isinstance(node, ast.ClassDef):
             q = prefix + node.name
             ci = ClassInfo(self, q, node)
             self.classes[q] = ci
-            self._walk_defs(node.body, q + '.', ci, None)
+            self._walk_defs(node.body, q + '.', ci, pfunc, ci)
         else:
             for child in ast.iter_child_nodes(node):
                 if isinstance(child, (ast.stmt, ast.excepthandler)) or \
                         isinstance(child, ast.match_case):
-                    self._walk_node(child, prefix, cls, pfunc)
-                elif isinstance(child, ast.Lambda):
-                    pass
+                    self._walk_node(child, prefix, cls, pfunc, direct_cls)
 
     def func(self, qualname):
         fi = self.functions.get(qualname)
